@@ -43,18 +43,18 @@ func approvals(rng *kernel.RNG, op string, target int64, nval int) []kernel.Step
 
 // GenWorkload produces a list of transaction steps and "block" cuts.
 func GenWorkload(rng *kernel.RNG, c GenCfg) []kernel.Step {
-	weights := map[string]int{"chain": 4, "import": 6, "cand": 3, "relayer": 2, "node": 2, "priv": 2, "noise": 2, "sig": 1, "burst": 1, "delonly": 0, "twoepochs": 1, "returning": 1, "ripple": 1, "statevals": 1, "crossaction": 1, "ownervote": 1, "rejoin": 1, "updquit": 1, "candop": 1, "relayerdup": 0}
+	weights := map[string]int{"chain": 4, "import": 6, "cand": 3, "relayer": 2, "node": 2, "priv": 2, "noise": 2, "sig": 1, "burst": 1, "delonly": 0, "twoepochs": 1, "returning": 1, "ripple": 1, "statevals": 1, "crossaction": 1, "ownervote": 1, "rejoin": 1, "updquit": 1, "candop": 1, "relayerdup": 0, "sigrotate": 1, "bigfail": 1}
 	for k, v := range c.W {
 		weights[k] = v
 	}
 	// swarm: switch some families off entirely in some runs
-	for _, k := range []string{"chain", "import", "cand", "relayer", "node", "priv", "noise", "sig", "burst", "delonly", "twoepochs", "returning", "ripple", "statevals", "crossaction", "ownervote", "rejoin", "updquit", "candop"} {
+	for _, k := range []string{"chain", "import", "cand", "relayer", "node", "priv", "noise", "sig", "burst", "delonly", "twoepochs", "returning", "ripple", "statevals", "crossaction", "ownervote", "rejoin", "updquit", "candop", "sigrotate", "bigfail"} {
 		if _, forced := c.W[k]; !forced && rng.Chance(0.15) {
 			weights[k] = 0
 		}
 	}
 	var fams []string
-	for _, k := range []string{"chain", "import", "cand", "relayer", "node", "priv", "noise", "sig", "burst", "delonly", "twoepochs", "returning", "ripple", "statevals", "crossaction", "ownervote", "rejoin", "updquit", "candop"} {
+	for _, k := range []string{"chain", "import", "cand", "relayer", "node", "priv", "noise", "sig", "burst", "delonly", "twoepochs", "returning", "ripple", "statevals", "crossaction", "ownervote", "rejoin", "updquit", "candop", "sigrotate", "bigfail"} {
 		for i := 0; i < weights[k]; i++ {
 			fams = append(fams, k)
 		}
@@ -484,6 +484,55 @@ func GenWorkload(rng *kernel.RNG, c GenCfg) []kernel.Step {
 				txs = append(txs, S("blackchain", int64(rng.Intn(4)), mode, anyone()))
 			case 3:
 				txs = append(txs, S("whitechain", int64(rng.Intn(4)), mode, anyone()))
+			}
+		case "sigrotate":
+			// signatures for one subject are collected below the quorum, some of the signers then
+			// leave the consensus set at an epoch change, and collection goes on: only signatures of
+			// CURRENT validators count
+			if c.NVal < 5 {
+				break
+			}
+			subj := int64(rng.Intn(5))
+			perm := rng.Perm(c.NVal)
+			q := quorum(c.NVal)
+			for i := 0; i < q-1; i++ {
+				txs = append(txs, S("addsig", subj, int64(perm[i])))
+			}
+			leavers := 1
+			if c.NVal >= 6 && rng.Chance(0.5) {
+				leavers = 2
+			}
+			txs = append(txs, S("cut"))
+			for i := 0; i < leavers; i++ {
+				txs = append(txs, S("quitnode", int64(perm[i]), int64(perm[i])))
+			}
+			txs = append(txs, S("cut"), S("commitdpos", 0, 0), S("cut"))
+			for i := q - 1; i < c.NVal; i++ {
+				txs = append(txs, S("addsig", subj, int64(perm[i])))
+			}
+		case "bigfail":
+			// a registration record far larger than the per-transaction write buffer; the approval
+			// that reaches the quorum (it first updates the approval record, then writes the big
+			// registered record) is failed after its handler ran
+			id, o := int64(rng.Intn(4)), int64(rng.Intn(nUsers))
+			if _, ok := owner[id]; ok {
+				break
+			}
+			txs = append(txs, S("regchain", id, 0, o, int64(100+rng.Intn(50))), S("nocut-begin"))
+			perm := rng.Perm(c.NVal)
+			for i := 0; i < quorum(c.NVal); i++ {
+				st := S("approvechain", id, int64(perm[i]))
+				if i == quorum(c.NVal)-1 && rng.Chance(0.8) {
+					st.S = "ff"
+				}
+				txs = append(txs, st)
+			}
+			txs = append(txs, S("regrelayer", int64(rng.Intn(nUsers)), anyone()), S("nocut-end"))
+			if rng.Chance(0.5) { // and a clean approval round afterwards
+				for i := 0; i < quorum(c.NVal); i++ {
+					txs = append(txs, S("approvechain", id, int64(perm[i])))
+				}
+				owner[id] = o
 			}
 		case "sig":
 			subj := int64(rng.Intn(5))
